@@ -27,4 +27,4 @@ For each mutation n in (1, 2) deliver, in /tmp/seed_out/{pid}/<n>/ :
   - patch.diff  : `git -C {wt} diff` of the change against HEAD (must apply cleanly with `git apply` on a clean checkout)
   - demo.py     : a standalone demonstration, run as `cd {wt} && PYTHONPATH={wt} /venv/bin/python /tmp/seed_out/{pid}/<n>/demo.py`, that exits NON-ZERO (or raises) WITH the change applied and exits 0 WITHOUT it. Verify both directions yourself. In-process transports are available (e.g. `vgi_rpc.rpc.serve_pipe`/`connect`-style helpers, and `vgi_rpc.http.make_sync_client` gives an in-process HTTP client without sockets); look at tests/ for usage examples. Keep the demo deterministic (control interleavings with events/barriers or by calling internals directly, rather than sleeping and hoping).
   - notes.md    : which property clause breaks, the exact site(s) changed, what is needed for it to manifest, and the commands you ran with their results (suite result line, demo result with and without the patch).
-Do not commit anything. When finished, leave the worktree clean (`git -C {wt} checkout -- . && git -C {wt} status --short` shows nothing). Work one mutation at a time (apply, run suite, save patch, revert). If a candidate fails the suite, discard it and try another idea. Final answer: a short summary of both mutations (files/functions changed, how they manifest) and confirmation of the checks you ran.""")
+Do not commit anything. Never use `git stash` (refs/stash is shared by every worktree of the repository and other agents use their worktrees concurrently: a pop can hand you someone else's change); to set a change aside use `git diff > file; git checkout -- .` and later `git apply file`. When finished, leave the worktree clean (`git -C {wt} checkout -- . && git -C {wt} status --short` shows nothing). Work one mutation at a time (apply, run suite, save patch, revert). If a candidate fails the suite, discard it and try another idea. Final answer: a short summary of both mutations (files/functions changed, how they manifest) and confirmation of the checks you ran.""")
